@@ -123,7 +123,8 @@ func (a *attribute) initHash() hash.StringHash {
 		if opt {
 			_, opt = a.typ.(*OptionalType)
 		}
-		if !opt {
+		// A constant has no implicit value: its undef is written too
+		if !opt || a.kind == constant {
 			h.Put(keyValue, a.value)
 		}
 	}
